@@ -17,6 +17,7 @@
 import SoyVerif.Lemmas.ParserAll
 import SoyVerif.Lemmas.ParserToks
 import SoyVerif.Lemmas.ParserQuote
+import SoyVerif.Lemmas.ParserAdj
 
 namespace SoyVerif.Props.C17
 open SoyVerif SoyVerif.Model SoyVerif.Model.Parser SoyVerif.Model.PrintTokens SoyVerif.Model.Printer
@@ -51,6 +52,14 @@ theorem toks_spell_printer (e : Expr) :
 /-- the printer's parenthesisation is one of the renderings (the minimal one) -/
 theorem printed_tokens_render (e : Expr) (hC : Canon ff pf e) : Renders pf e (toks ff e) :=
   renders_toks ff pf e hC
+
+/-- lexer-facing: in the printed tokens of ANY tree, preceded by the start of input, every token that
+    may begin with a unary `-` (Negate, Integer, Float) follows a token of `beforeOperand`, every binary
+    minus follows a token of `afterOperand` (`chainOK`), and the last token is one of `afterOperand` -/
+theorem minus_context (e : Expr) :
+    SoyVerif.Lemmas.ParserAdj.chainOK .tInvalid (SoyVerif.Lemmas.ParserAdj.typs (toks ff e)) = true ∧
+    SoyVerif.Lemmas.ParserAdj.lastOf .tInvalid (SoyVerif.Lemmas.ParserAdj.typs (toks ff e)) ∈ SoyVerif.Lemmas.ParserAdj.afterOperand :=
+  SoyVerif.Lemmas.ParserAdj.good_toks ff e .tInvalid (by simp [SoyVerif.Lemmas.ParserAdj.beforeOperand])
 
 /-- the key condition of `Canon` holds for every key of plain ASCII bytes (no byte that
     `quoteString` escapes); PARTIAL: keys with escapes or multi-byte runes are covered by examples
